@@ -114,7 +114,7 @@ def TU.flush (t : TU) : List (Nat × Nat × Nat) × List (Nat × Nat) :=
   else (t.ranges, t.chars ++ [(t.sc, t.su)])
 
 /-- one iteration for subset code `c` with packed unicode `v`; a run is only extended while the low byte
-of the destination does not wrap (`unicode&0xFF != 0`, /repo 857c1d0) -/
+of the destination does not wrap (`unicode&0xFF != 0`, /repo 6081df5) -/
 def tuStep (t : TU) (c v : Nat) : TU :=
   if c = t.sc + t.len ∧ v = t.su + t.len ∧ v % 256 ≠ 0 then { t with len := t.len + 1 }
   else ⟨c, v, 1, t.flush.1, t.flush.2⟩
